@@ -260,7 +260,11 @@ func c16WideRange(rt *rapid.T) {
 		}
 		return sign * float64(rapid.IntRange(0, 64).Draw(rt, "small")) / 16
 	})
-	x := toDtype(tensor.Float32, shape, vals)
+	wdt, welem := tensor.Float32, int32(1)
+	if rapid.IntRange(0, 2).Draw(rt, "float64") == 0 {
+		wdt, welem = tensor.Float64, 11
+	}
+	x := toDtype(wdt, shape, vals)
 	op := rapid.SampledFrom([]string{"Softmax", "Softmax", "LogSoftmax", "LogSoftmax", "Sigmoid", "Tanh", "ReduceMax", "ReduceMin"}).Draw(rt, "op")
 	axis := rapid.IntRange(1, rank-1).Draw(rt, "axis")
 	spelled := int64(axis)
@@ -280,7 +284,7 @@ func c16WideRange(rt *rapid.T) {
 	for _, d := range shape[1:] {
 		dims = append(dims, d)
 	}
-	g := &onnx.GraphProto{Input: []*onnx.ValueInfoProto{valueInfo("x", 1, dims...)}, Output: []*onnx.ValueInfoProto{valueInfoNoShape("y")}}
+	g := &onnx.GraphProto{Input: []*onnx.ValueInfoProto{valueInfo("x", welem, dims...)}, Output: []*onnx.ValueInfoProto{valueInfoNoShape("y")}}
 	in := "x"
 	if rapid.Bool().Draw(rt, "scaled") {
 		// a per-feature scale in front (elementwise, exact for powers of two)
@@ -288,7 +292,7 @@ func c16WideRange(rt *rapid.T) {
 		for i := range w {
 			w[i] = rapid.SampledFrom([]float32{0.5, 1, 2, -1, -2}).Draw(rt, "scale")
 		}
-		g.Initializer = append(g.Initializer, protoOf("w", mkT([]int{shape[rank-1]}, w)))
+		g.Initializer = append(g.Initializer, protoOf("w", toDtype(wdt, []int{shape[rank-1]}, f32sTo64(w))))
 		g.Node = append(g.Node, mkNode("Mul", []string{"x", "w"}, []string{"xs"}))
 		in = "xs"
 	}
@@ -301,7 +305,7 @@ func c16WideRange(rt *rapid.T) {
 	feed := gonnx.Tensors{"x": x}
 	desc := fmt.Sprintf("%s%s on %v N=%d #%x", op, descNode(g.Node[len(g.Node)-1]), shape, n, hashFeed(feed))
 	v, computed := bm.checkAll(rt, feed, n)
-	cls := []string{"wide-" + op, fmt.Sprintf("N=%d", n), fmt.Sprintf("rank-%d", rank)}
+	cls := []string{"wide-" + op, fmt.Sprintf("N=%d", n), fmt.Sprintf("rank-%d", rank), "wide-" + wdt.String()}
 	if !computed {
 		cls = append(cls, "batch-refused")
 	}
